@@ -446,9 +446,17 @@ package jet
 //@   loop 1 invariant [content] st.content == old(st.content)
 //@   loop 1 invariant [writer] st.escapeeWriter.Writer == old(st.escapeeWriter.Writer)
 //@   loop 1 invariant [defer] deferred(0) == inNewScope
-//@   loop 1 invariant [ctx] context == old(st.context)
+//@   loop 1 invariant [ctx] context == old(st.context) && (valVarSlot >= 0 ==> st.context == context)
 //@   loop 1 invariant [scope] ite(isLet, st.scope.parent != nil && ite(inNewScope, st.scope.parent.parent == old(st.scope), st.scope.parent == old(st.scope)), ite(inNewScope, st.scope.parent == old(st.scope), st.scope == old(st.scope)))
 //@   loop 0 monotone [return-value-kept] {C09} RvValid(returnValue)
+//@   loop 0 step [if-renders-exactly-one-branch] {C05} NodeTypeOf(list.Nodes[prev(i)]) == NodeIf ==> ite(lastret("isTrue", 0), visits("(*Runtime).executeList", 0) == prev(visits("(*Runtime).executeList", 0)) + 1 && visits("(*Runtime).executeList", 1) == prev(visits("(*Runtime).executeList", 1)), visits("(*Runtime).executeList", 0) == prev(visits("(*Runtime).executeList", 0)) && visits("(*Runtime).executeList", 1) == prev(visits("(*Runtime).executeList", 1)) + ite(as(list.Nodes[prev(i)], "*IfNode").ElseList != nil, 1, 0))
+//@   loop 1 step [range-body-once-per-element] {C05} visits("(*Runtime).executeList", 2) == prev(visits("(*Runtime).executeList", 2)) + 1 && visits("(Ranger).Range", 1) == prev(visits("(Ranger).Range", 1)) + 1
+//@   loop 1 invariant [range-slots] {C05} ite(!isSet, valVarSlot == -1, ite(len(node.Set.Left) > 1, keyVarSlot == 0 && valVarSlot == 1 && lastret("(Ranger).ProvidesIndex", 0), ite(lastret("(Ranger).ProvidesIndex", 0), keyVarSlot == 0 && valVarSlot == -1, keyVarSlot == -1 && valVarSlot == 0)))
+//@   callsite (*Runtime).executeList 0 requires [if-branch-taken-when-truthy] {C05} lastret("isTrue", 0) && list == caller.node.List
+//@   callsite (*Runtime).executeList 1 requires [else-branch-taken-when-falsy] {C05} !lastret("isTrue", 0) && list == caller.node.ElseList
+//@   callsite (*Runtime).executeList 2 requires [range-binds-dot-only-without-value-variable] {C05} list == caller.node.List && ite(caller.valVarSlot < 0, st.context == caller.rangeValue, st.context == caller.context)
+//@   callsite (*Runtime).executeList 3 requires [range-else-iff-no-elements] {C05} lastret("(Ranger).Range", 2) && list == caller.node.ElseList
+
 //@   callsite fastprinter.PrintValue 0 requires [action-output-goes-through-the-escaping-writer] {C01} w == iface(st.escapeeWriter, "*escapeeWriter")
 //@   callsite fastprinter.PrintValue count 1
 //@   callsite (io.Writer).Write 0 requires [text-is-written-raw-and-unmodified] {C01,C03} w == st.escapeeWriter.Writer && b == caller.node.Text
